@@ -34,8 +34,69 @@ def _fmt_list(xs, ind='        '):
     return ''.join('%s%s,\n' % (ind, x) for x in xs)
 
 
+def gen_source_unit(sc, sidecar_path, repo):
+    """creation functions: the closure passed to Observable::create is the unit; its parameter becomes `&mut ObsModel<OUT>`"""
+    op = sc['op']
+    src_path = os.path.join(repo, sc['file'])
+    if not os.path.exists(src_path):
+        raise UnitError('anchor', 'file %s missing' % sc['file'])
+    src = open(src_path).read()
+    try:
+        toks = rxprep.strip_test_mods(rxprep.tree(src))
+        body, _ = rxprep.find_fn(toks, sc['fn'], None)
+        creates = rxprep.find_calls(body.kids, 'create')
+        if len(creates) != 1:
+            raise AnchorLost('expected exactly one Observable::create in fn %s' % sc['fn'])
+        cl = rxprep.parse_closure(creates[0][2].kids, src)
+        if cl is None or len(cl.params) != 1:
+            raise AnchorLost('create argument is not a one-parameter closure')
+    except (AnchorLost, LexError) as e:
+        raise UnitError('anchor', str(e))
+    sk = rxprep.Skeleton()
+    sk_problems = []
+    # the fn body must be just the create call (no other statements that could emit)
+    stmts = rxprep.split_statements(body.kids)
+    if len(stmts) != 1:
+        sk_problems.append('fn %s has statements besides Observable::create(..)' % sc['fn'])
+    captures = sc.get('captures', {})
+    try:
+        ex = rxprep.rewrite_body(cl, sk, src, op, captures, {})
+    except NotExtractable as e:
+        raise UnitError('not_extractable', '%s: %s' % (op, e))
+    pname = ex.params[0][0]
+    tout = sc.get('out', 'Item')
+    params = ['%s: %s' % (c, t) for c, t in captures.items()] + ['%s: &mut ObsModel<%s>' % (pname, tout)]
+    def subst(t):
+        return t.replace('$s', pname)
+    req = ['old(%s).wf()' % pname] + [subst(x) for x in sc.get('requires', [])]
+    ens = [subst(x) for x in sc.get('ensures', [])]
+    body_txt = insert_loop_invariants(ex.text, [subst(x) for x in sc.get('invariants', [])], sc.get('for_names'))
+    fn_name = '%s_source' % op
+    header = '// extracted: %s chars %d..%d (line %d) sha256=%s\n// replacements: %s\n' % (
+        sc['file'], ex.span[0], ex.span[1], rxprep.line_of(src, ex.span[0]), ex.sha256, json.dumps(ex.replacements))
+    f = header + ''.join(a + '\n' for a in sc.get('fn_attrs', [])) + 'fn %s(%s)\n    requires\n%s    ensures\n%s{\n' % (fn_name, ', '.join(params), _fmt_list(req), _fmt_list(ens))
+    if sc.get('proof_pre'):
+        f += '    proof { %s }\n' % subst(sc['proof_pre'])
+    f += '    let _unit: () = /*BEGIN-EXTRACTED*/ %s /*END-EXTRACTED*/;\n' % body_txt
+    if sc.get('proof'):
+        f += '    proof { %s }\n' % subst(sc['proof'])
+    f += '}\n'
+    twin = 'fn %s_twin(%s)\n    requires\n%s    ensures false,\n{\n}\n' % (fn_name, ', '.join(params), _fmt_list(req))
+    prelude = open(os.path.join(VERIF, 'models', 'prelude.rs')).read()
+    text = prelude + '\nverus! {\n// ---- specification (contracts/%s) ----\n%s\n// ---- extracted from /repo ----\n%s\n} // verus!\nfn main() {}\n' % (
+        os.path.basename(sidecar_path), sc.get('spec', ''), f)
+    twin_text = prelude + '\nverus! {\n%s\n%s\n} // verus!\nfn main() {}\n' % (sc.get('spec', ''), twin)
+    meta = [{'fn': fn_name, 'file': sc['file'], 'line': rxprep.line_of(src, ex.span[0]), 'span': list(ex.span),
+             'sha256': ex.sha256, 'replacements': ex.replacements, 'loops': ex.loops}]
+    return {'op': op, 'text': text, 'twins': twin_text, 'facts': {'create_param': pname}, 'skeleton_problems': sk_problems,
+            'outer_cells': [], 'extracted': meta, 'props': sc.get('props', []), 'known_fail': {},
+            'fn_names': [fn_name], 'twin_names': [fn_name + '_twin']}
+
+
 def gen_unit(sidecar_path: str, repo: str) -> dict:
     sc = load_sidecar(sidecar_path)
+    if sc.get('kind') == 'source':
+        return gen_source_unit(sc, sidecar_path, repo)
     op = sc['op']
     src_path = os.path.join(repo, sc['file'])
     if not os.path.exists(src_path):
@@ -77,6 +138,9 @@ def gen_unit(sidecar_path: str, repo: str) -> dict:
         for c in sk.cells:
             if c not in cells:
                 sk_problems.append('state cell `%s` is not covered by the contract' % c)
+    for name, txt in sk.outer_lets.items():
+        if not re.fullmatch(r'let\s+(mut\s+)?\w+\s*=\s*self\s*\.\s*\w+\s*(\.\s*clone\s*\(\s*\))?', txt.strip()):
+            sk_problems.append('unrecognised statement in %s before create: `%s`' % (sc.get('fn', 'execute'), txt))
     # C14 frame: cells created outside the create closure
     outer = [c for c in sk.outer_cells]
     # --- extraction ---------------------------------------------------------------------------------------
@@ -96,9 +160,10 @@ def gen_unit(sidecar_path: str, repo: str) -> dict:
     def cell_args_final():
         return ['*final(%s)' % c for c in all_cells]
 
-    cap_args = list(captures.keys())
+    cap_args = sc.get('spec_captures', list(captures.keys()))
+    cap_all = list(captures.keys())
     for h in sk.helpers:
-        helper_sigs[h] = all_cells + cap_args + ['sctl']
+        helper_sigs[h] = all_cells + cap_all + ['sctl']
 
     def spec_args(cellargs, xs):
         return ', '.join(cellargs + cap_args + [xs])
@@ -223,12 +288,28 @@ def gen_unit(sidecar_path: str, repo: str) -> dict:
         ret_args = ['r.%d' % i for i in range(len(all_cells))]
         ic = sc.get('init', {})
         init_fn = 'fn %s_init(%s) -> (r: %s)\n    requires\n%s    ensures\n%s{\n%s%s    (%s)\n}\n' % (
-            op, ', '.join(cap_params()), ret_t, _fmt_list(ic.get('requires', [])),
+            op, ', '.join('%s: %s' % (c, captures[c]) for c in cap_args), ret_t, _fmt_list(ic.get('requires', [])),
             _fmt_list(['%s(%s)' % (rep, spec_args(ret_args, 'Seq::<%s>::empty()' % tin)),
                        '%s(%s) =~= Seq::<Ev<%s>>::empty()' % (dn, def_args('Seq::<%s>::empty()' % tin), tout)]),
             ''.join(lets), ('    proof { %s }\n' % ic['proof']) if ic.get('proof') else '',
             ', '.join(all_cells) + (',' if len(all_cells) == 1 else ''))
         fns.insert(0, init_fn)
+    inc = ''
+    for other in sc.get('include_specs', []):
+        osc = load_sidecar(os.path.join(VERIF, 'contracts', other + '.toml'))
+        inc += '\n// ---- included specification of contracts/%s.toml ----\n%s\n' % (other, osc.get('spec', ''))
+    sc = dict(sc)
+    sc['spec'] = inc + sc.get('spec', '')
+    # constructor facts (syntactic, whitespace-insensitive): e.g. First::new builds Take::new(1)
+    for fn_name, needle in sc.get('ctor_facts', []):
+        try:
+            toks0 = rxprep.strip_test_mods(rxprep.tree(src))
+            fbody, _ = rxprep.find_fn(toks0, fn_name, sc.get('impl'))
+            got = re.sub(r'\s+', '', src[fbody.start:fbody.end])
+            if re.sub(r'\s+', '', needle) not in got:
+                sk_problems.append('constructor fact not found in fn %s: `%s`' % (fn_name, needle))
+        except (AnchorLost, LexError) as e:
+            sk_problems.append('constructor fact: %s' % e)
     text = open(os.path.join(VERIF, 'models', 'prelude.rs')).read()
     for extra in sc.get('models', []):
         text += '\n' + open(os.path.join(VERIF, 'models', extra)).read()
